@@ -15,8 +15,10 @@ package main
 import (
 	"bytes"
 	"fmt"
+	"math"
 	"os"
 	"sort"
+	"sync"
 	"sync/atomic"
 	"time"
 
@@ -43,6 +45,9 @@ type world struct {
 	n    int
 	keys []*dposkit.Key
 	arbs *state.ArbitratorsMock
+
+	mu        sync.Mutex
+	explained map[uint32]bool
 }
 
 func newWorld(n int, all []*dposkit.Key) *world {
@@ -140,6 +145,46 @@ func (w *world) nextBoundary(ver int, o uint32) (time.Duration, uint32, bool) {
 	}
 	to, _ := adv(hi)
 	return hi, to, true
+}
+
+// explainedByFirstStepRule measures, on the real code, the duration of view o when a V1
+// computation starts in it (D1) and when it is passed inside the catch-up loop (D2), and reports
+// whether D1-D2 is the 3*20^(o/n) s of the known first-step/loop discrepancy (uint32 arithmetic,
+// as in the repository). Results are cached per offset.
+func (w *world) explainedByFirstStepRule(o uint32) bool {
+	w.mu.Lock()
+	defer w.mu.Unlock()
+	if v, ok := w.explained[o]; ok {
+		return v
+	}
+	if w.explained == nil {
+		w.explained = map[uint32]bool{}
+	}
+	res := true
+	d1, _, ok1 := w.nextBoundary(1, o)
+	if o > 0 && ok1 {
+		// one-shot from o-1: instant of reaching o, instant of reaching o+1
+		b1, to, ok := w.nextBoundary(1, o-1)
+		if ok && to == o {
+			lo, hi := b1, maxT
+			if w.run(1, o-1, []time.Duration{hi}).Offset > o {
+				for hi-lo > 1 {
+					mid := lo + (hi-lo)/2
+					if w.run(1, o-1, []time.Duration{mid}).Offset > o {
+						hi = mid
+					} else {
+						lo = mid
+					}
+				}
+				d2 := hi - b1
+				want := uint32(3) * uint32(math.Pow(20, float64(o/uint32(w.n))))
+				diff := uint32((d1 - d2) / time.Second)
+				res = (d1-d2)%time.Second == 0 && diff == want
+			}
+		}
+	}
+	w.explained[o] = res
+	return res
 }
 
 // timeSet builds the declared finite set of instants for (ver, n, o0).
@@ -259,6 +304,12 @@ func (w *world) compare(r *sink, ver int, o0 uint32, times []time.Duration, one 
 	if ch.MidAdv {
 		if int(ch.Mid) >= w.n {
 			class = "intermediate-advance-to-offset>=n"
+			if ver&1 == 1 && !w.explainedByFirstStepRule(ch.Mid) {
+				// the known V1 defect makes the view a computation starts in exactly
+				// 3*20^(offset/n) s longer than the same view passed inside the loop; any other
+				// relation between the two measured durations is a different defect
+				class += "|first-step-vs-loop-duration-not-3*20^round"
+			}
 		} else {
 			class = "intermediate-advance-to-offset<n"
 		}
